@@ -74,6 +74,10 @@ EXPLANATION += (
     ' Round 10: gathers by pandas category codes are masked on the sign of the codes (R-IDIOM/sentinel-code-gather).'
 )
 
+EXPLANATION += (
+    ' Round 11: a column number fetched with .get() is not tested for truth (R-IDIOM/truthy-position).'
+)
+
 RULE_TEXT = (
     "one obligation per constructor path, per attribute-assignment site, "
     "per mutation candidate, per helper parameter, per accessor x caller, "
